@@ -166,6 +166,30 @@ package comp
 //@   ensures forall j :: 0 <= j && j < len(result) ==> result[j] == c.lines[j]
 //@   assigns nothing
 
+// GetSubCacheLine (MVP-8: an L1-sized slice of a resident L3 line): found
+// exactly when a resident line (among the first numberOfLines) covers
+// addrs[0]; the result is a fresh copy of the sub-line of the FIRST covering
+// line that contains addrs[0], based at addrs[0] rounded down to the sub-line
+// size. Needs size-aligned lines (a line based at an address that is not a
+// multiple of the sub-line size indexes before its Data and panics - excluded
+// by the precondition; alignment of resident lines is a C06 invariant). The
+// sub-line size is one of the powers of two the variants use.
+//@ spec func alignedLines(c *LRUCache, sub int32) bool = c.lineLength % int(sub) == 0 && (forall j :: 0 <= j && j < len(c.lines) ==> int32(c.lines[j].Boundary[0]) % sub == 0)
+//@ func (*LRUCache).GetSubCacheLine
+//@   requires wfCache(c) && len(addrs) > 0 && 0 <= addrs[0] && addrs[0] <= 1073741824 && (lineLength == 16 || lineLength == 32 || lineLength == 64 || lineLength == 128) && alignedLines(c, lineLength)
+//@   ensures result2 ==> (exists j :: 0 <= j && j < len(c.lines) && j < c.numberOfLines && covers(c.lines[j], addrs[0]))
+//@   ensures !result2 ==> (forall j :: 0 <= j && j < len(c.lines) && j < c.numberOfLines ==> !covers(c.lines[j], addrs[0]))
+//@   ensures result2 ==> int32(result) == addrs[0] - addrs[0] % lineLength && len(result1) == int(lineLength) && fresh(result1)
+//@   ensures result2 ==> (exists j :: 0 <= j && j < len(c.lines) && j < c.numberOfLines && covers(c.lines[j], addrs[0]) && (forall j2 :: 0 <= j2 && j2 < j ==> !covers(c.lines[j2], addrs[0])) && (forall a :: lo(result1) <= a && a < hi(result1) ==> at(result1, a) == at(c.lines[j].Data, lo(c.lines[j].Data) + int(result) - int(c.lines[j].Boundary[0]) + (a - lo(result1)))))
+//@   ensures !result2 ==> result == 0 && result1 == nil
+//@   assigns nothing
+//@   loop 0: invariant len(_range0) == min(len(c.lines), c.numberOfLines) && (forall j :: 0 <= j && j < len(_range0) ==> _range0[j] == c.lines[j])
+//@   loop 0: invariant forall j :: 0 <= j && j < _idx0 ==> !covers(_range0[j], addrs[0])
+//@   loop 1: invariant 0 <= i && i <= int(lineLength) && len(data) == i && cap(data) >= int(lineLength) && fresh(data) && 0 <= _idx0 && _idx0 < len(_range0) && covers(c.lines[_idx0], addrs[0]) && int32(smallerAlignAddr) == addrs[0] - addrs[0] % lineLength
+//@   loop 1: invariant forall j :: 0 <= j && j < _idx0 ==> !covers(_range0[j], addrs[0])
+//@   loop 1: invariant wfLine(c, c.lines[_idx0]) && int32(c.lines[_idx0].Boundary[0]) % lineLength == 0 && c.lineLength % int(lineLength) == 0 && _range0[_idx0] == c.lines[_idx0]
+//@   loop 1: invariant forall a :: lo(data) <= a && a < lo(data) + i ==> at(data, a) == at(c.lines[_idx0].Data, lo(c.lines[_idx0].Data) + int(smallerAlignAddr) - int(c.lines[_idx0].Boundary[0]) + (a - lo(data)))
+
 //@ func (*LRUCache).Lines
 //@   ensures result == c.lines
 //@   assigns nothing
